@@ -1,95 +1,246 @@
 package main
 
 import (
+	"strings"
+
+	"verif/checker/internal/load"
+	"verif/checker/internal/report"
 	"verif/checker/internal/rules"
 )
 
+// only restricts a rule to the obligations whose construct (What) or function
+// satisfies keep; unresolved-anchor obligations are always kept. min is the
+// number of instances confirmed by hand for the restricted rule.
+func only(r Rule, min int, keep func(o report.Obligation) bool) Rule {
+	return Rule{ID: r.ID, Run: func(p *load.Program) *report.RuleResult {
+		res := r.Run(p)
+		var kept []report.Obligation
+		for _, o := range res.Obligations {
+			if strings.Contains(o.Key, "|anchor|") || strings.HasPrefix(o.What, "anchor ") || keep(o) {
+				kept = append(kept, o)
+			}
+		}
+		res.Obligations = kept
+		res.MinInstances = min
+		return res
+	}}
+}
+
+func whatHas(subs ...string) func(o report.Obligation) bool {
+	return func(o report.Obligation) bool {
+		for _, s := range subs {
+			if strings.Contains(o.What, s) {
+				return true
+			}
+		}
+		return false
+	}
+}
+
+func whatLacks(subs ...string) func(o report.Obligation) bool {
+	f := whatHas(subs...)
+	return func(o report.Obligation) bool { return !f(o) }
+}
+
+func funcHas(subs ...string) func(o report.Obligation) bool {
+	return func(o report.Obligation) bool {
+		for _, s := range subs {
+			if strings.Contains(o.Func, s) {
+				return true
+			}
+		}
+		return false
+	}
+}
+
+var (
+	rTypecode  = Rule{"TAB-TYPECODE", rules.TabTypecode}
+	rNibble    = Rule{"TAB-NIBBLE", rules.TabNibble}
+	rNullKW    = Rule{"TAB-NULLKW", rules.TabNullKW}
+	rEscape    = Rule{"TAB-ESCAPE", rules.TabEscape}
+	rKeyword   = Rule{"TAB-KEYWORD", rules.TabKeyword}
+	rLstFields = Rule{"TAB-LSTFIELDS", rules.TabLstFields}
+	rToken     = Rule{"TAB-TOKEN", rules.TabToken}
+
+	rOrdValue     = Rule{"ORD-VALUE", rules.OrdValue}
+	rOrdLstFirst  = Rule{"ORD-LSTFIRST", rules.OrdLstFirst}
+	rOrdRearm     = Rule{"ORD-REARM", rules.OrdRearm}
+	rOrdPopGuard  = Rule{"ORD-POPGUARD", rules.OrdPopGuard}
+	rOrdBVMReset  = Rule{"ORD-BVMRESET", rules.OrdBVMReset}
+	rOrdLstHide   = Rule{"ORD-LSTHIDE", rules.OrdLstHide}
+	rOrdEOFDepth  = Rule{"ORD-EOFDEPTH", rules.OrdEOFDepth}
+	rOrdDangle    = Rule{"ORD-DANGLE", rules.OrdDangle}
+	rOrdSortMap   = Rule{"ORD-SORTMAP", rules.OrdSortMap}
+	rOrdFirstWins = Rule{"ORD-FIRSTWINS", rules.OrdFirstWins}
+	rOrdSidBound  = Rule{"ORD-SIDBOUND", rules.OrdSidBound}
+	rOrdNoInput   = Rule{"ORD-NOINPUT", rules.OrdNoInput}
+
+	rOwnImmut  = Rule{"OWN-IMMUT", rules.OwnImmut(false)}
+	rOwnGlobal = Rule{"OWN-GLOBAL", rules.OwnGlobal(false)}
+	rOwnEscape = Rule{"OWN-ESCAPE", rules.OwnEscape}
+	rOwnNondet = Rule{"OWN-NONDET", rules.OwnNondet}
+
+	rGuardW  = Rule{"ERR-GUARD-W", rules.ErrGuardW}
+	rStickyW = Rule{"ERR-STICKY-W", rules.ErrStickyW}
+	rAbsorbR = Rule{"ERR-ABSORB-R", rules.ErrAbsorbR}
+	rStickyR = Rule{"ERR-STICKY-R", rules.ErrStickyR}
+	rRefuse  = Rule{"REFUSE-PURE", rules.RefusePure}
+)
+
+const ssaTech = "SSA must-dataflow of branch facts, path search to exits and effect summaries over the VTA call graph"
+const tabTech = "constant-table extraction from SSA (enum value-set dataflow over switch/if dispatch) compared with the Ion 1.0 tables embedded in the checker and with the sibling implementation's table"
+
 var registry = map[string]*Property{
-	"C09": {
-		Title:      "ord scratch",
-		Decided:    "ORD",
-		NotDecided: "x",
-		Technique:  "CFG must/may dataflow",
-		DesignRef:  "DESIGN.md §3.5",
+	"C01": {
+		Decided:    "The finite tables of the writers and the readers are inverse of each other: every single-letter escape the text writer spells is mapped back to the same byte by the text reader and the needs-escaping tests cover delimiter, backslash and control characters (TAB-ESCAPE, writer obligations); typed-null spellings written = names the reader dispatches on = the 13 Ion type names (TAB-NULLKW); identifier-shaped text with a non-symbol meaning is quoted when written as a symbol (TAB-KEYWORD); binary type codes, per-code value types, float sizes and typed-null bytes equal the Ion 1.0 tables (TAB-TYPECODE); every value the writers open is closed on each success path, annotation wrappers included (ORD-VALUE); in Finish the version marker precedes the symbol table, which precedes the buffered values (ORD-LSTFIRST).",
+		Necessary:  "A byte escaped as \\X that the reader maps elsewhere, a typed null spelled with another type's name, a reserved word written unquoted, a type code decoded as another type, an unclosed 0xE0 wrapper or a table emitted after its values each change or lose a value named in the property's quantifier.",
+		NotDecided: "payload encodings (ints, floats, decimals, timestamps), xLen = len(appendX), float/decimal/timestamp formatting, symbol text versus $n reinterpretation in the binary writer (finding F5, not decided by any rule)",
+		Technique:  tabTech + "; CFG/SSA pairing for ORD",
+		DesignRef:  "DESIGN.md §3.4, §3.5, §4 C01",
 		Rules: []Rule{
-			{"ORD-VALUE", rules.OrdValue},
-			{"ORD-LSTFIRST", rules.OrdLstFirst},
-			{"ORD-REARM", rules.OrdRearm},
-			{"ORD-POPGUARD", rules.OrdPopGuard},
-			{"ORD-BVMRESET", rules.OrdBVMReset},
-			{"ORD-LSTHIDE", rules.OrdLstHide},
-			{"ORD-EOFDEPTH", rules.OrdEOFDepth},
-			{"ORD-DANGLE", rules.OrdDangle},
-			{"ORD-SORTMAP", rules.OrdSortMap},
-			{"ORD-FIRSTWINS", rules.OrdFirstWins},
-			{"ORD-SIDBOUND", rules.OrdSidBound},
-			{"ORD-NOINPUT", rules.OrdNoInput},
+			only(rEscape, 18, whatHas("writer:")), rNullKW, rKeyword, rTypecode, rOrdValue, rOrdLstFirst,
+		},
+	},
+	"C02": {
+		Decided:    "The text reader's finite tables equal the Ion 1.0 text tables: every escape with its code point and digit count, \\u and \\U refused inside clobs (TAB-ESCAPE, reader obligations); the 13 null.<type> names (TAB-NULLKW, reader obligations); every token the tokenizer can hand out at the start of a value has an arm in the reader's value dispatch (TAB-TOKEN, value arms).",
+		Necessary:  "An escape decoded to another code point, a null.<type> name mapped to another type, or a value-start token without a dispatch arm makes a legal spelling decode to another value or to an error.",
+		NotDecided: "number, string-segmentation, comment/whitespace and timestamp grammar (behaviour of loops over characters); $n handling",
+		Technique:  tabTech,
+		DesignRef:  "DESIGN.md §3.4, §4 C02",
+		Rules: []Rule{
+			only(rEscape, 18, whatHas("reader:")), only(rNullKW, 13, whatHas("reader:")), only(rToken, 14, whatHas("value arm")),
 		},
 	},
 	"C03": {
-		Title:      "binary reader",
-		Decided:    "TAB",
-		NotDecided: "x",
-		Technique:  "constant-table extraction from SSA (enum value-set dataflow) compared with embedded Ion 1.0 tables",
+		Decided:    "The binary reader's type-code table, the value type stored for each type code and the accepted float sizes equal the Ion 1.0 tables (TAB-TYPECODE, reader obligations); validateAnnotatedValue special-cases exactly the type codes whose low nibble bitstream.Next does not read as a body length, so a wrapper around true/false or a sorted struct is measured correctly (TAB-NIBBLE).",
+		Necessary:  "A type code decoded as another type, a refused float size, or a wrapper length check that misreads a bool's nibble (finding F13, fixed) rejects or misdecodes a valid encoding.",
+		NotDecided: "VarUInt/VarInt arithmetic, padding, NOP handling, struct ordering, lengths (behavioural); TAB-BUDGET of the design was not built",
+		Technique:  tabTech,
 		DesignRef:  "DESIGN.md §3.4, §4 C03",
 		Rules: []Rule{
-			{"TAB-TYPECODE", rules.TabTypecode},
-			{"TAB-NIBBLE", rules.TabNibble},
-			{"TAB-NULLKW", rules.TabNullKW},
-			{"TAB-ESCAPE", rules.TabEscape},
-			{"TAB-KEYWORD", rules.TabKeyword},
-			{"TAB-LSTFIELDS", rules.TabLstFields},
-			{"TAB-TOKEN", rules.TabToken},
+			only(rTypecode, 30, whatLacks("binaryNulls[")), rNibble,
 		},
 	},
-	"C18": {
-		Title:      "Independent readers, writers and marshal calls can run concurrently",
-		Decided:    "OWN",
-		NotDecided: "x",
-		Technique:  "SSA store/alias roots + call-graph effect summaries",
-		DesignRef:  "DESIGN.md §3.6, §4 C18",
+	"C04": {
+		Decided:    "Binary typed-null bytes written equal the Ion 1.0 table (TAB-TYPECODE, writer obligations); text typed-null spellings are the 13 Ion type names (TAB-NULLKW, writer obligations); the needs-escaping tests of strings, symbols and clobs cover delimiter, backslash, control characters and non-ASCII for clobs (TAB-ESCAPE, predicate obligations); keywords are quoted when written as symbols (TAB-KEYWORD); every opened value/container/annotation wrapper is closed on each success path (ORD-VALUE); version marker before symbol table before values, fixed table before the first value (ORD-LSTFIRST).",
+		Necessary:  "Each clause is checked against the specification embedded in the checker, not against this repository's reader: a wrong null byte or name, a raw delimiter, an unquoted keyword, an unclosed wrapper (declared length never patched) or a table after its values is ill-formed or denotes another value under any conforming decoder.",
+		NotDecided: "each codec's own length function (TAB-LENPAY not built), negative symbol IDs (finding F25, NUM-NARROW not built), separators and number formatting",
+		Technique:  tabTech + "; CFG/SSA pairing for ORD",
+		DesignRef:  "DESIGN.md §3.4, §3.5, §4 C04",
 		Rules: []Rule{
-			{"OWN-IMMUT", rules.OwnImmut(false)},
-			{"OWN-GLOBAL", rules.OwnGlobal(false)},
-			{"OWN-ESCAPE", rules.OwnEscape},
-			{"OWN-NONDET", rules.OwnNondet},
+			only(rTypecode, 13, whatHas("binaryNulls[")), only(rNullKW, 13, whatHas("writer:")), only(rEscape, 9, whatHas("escapes when")), rKeyword, rOrdValue, rOrdLstFirst,
 		},
 	},
+	"C05": {NAReason: "The structural clause identified for this property (OWN-TEXTAUTH: at every place the binary writer turns a token into an ID the token's text wins over the source SID) was not built in this revision; the remaining content (equivalence of whole documents across formats and tables) quantifies over runtime values that no static rule here can bound. Findings F5 and F6 of DESIGN §6 remain open and are not decided by any check."},
 	"C06": {
-		Title:      "No input can crash, hang or exhaust memory",
-		Decided:    "NIL",
-		NotDecided: "bounds",
-		Technique:  "SSA must-dataflow with inferred preconditions",
+		Decided:    "In package ion: a pointer obtained from an accessor that returns (nil, nil) for a typed null is dereferenced only where it is known non-nil, with preconditions inferred through helper calls (NIL-ACC); such a pointer is not passed to a callee that dereferences it unguarded (NIL-ARG); the pointer fields documented nil-if-unknown (SymbolToken.Text/Source, ImportSource) are dereferenced only under a nil test of the same access path (NIL-FIELD); every panicking pop on the reader-side stacks is dominated by a non-emptiness fact (ORD-POPGUARD, reader obligations).",
+		Necessary:  "An unguarded dereference of a typed null's nil accessor result, or an unguarded pop, is a panic on an input that exists (null.int, $0, imports:null.symbol — findings F7, F8, F9, all fixed).",
+		NotDecided: "index/slice bounds, allocation sized by a declared length (finding F11, NUM-ALLOC not built), internal consistency panics, loop termination, recursion depth",
+		Technique:  "SSA must-dataflow of nil facts keyed by canonical access path, with inferred callee preconditions",
 		DesignRef:  "DESIGN.md §3.2, §4 C06",
 		Rules: []Rule{
-			{"NIL-ACC", rules.NilAcc(rules.Scope{Name: "all"}, 1)},
-			{"NIL-ARG", rules.NilArg(rules.Scope{Name: "all"}, 0)},
-			{"NIL-FIELD", rules.NilField(rules.Scope{Name: "all"}, 1)},
+			{"NIL-ACC", rules.NilAcc(rules.ScopeIon, 20)}, {"NIL-ARG", rules.NilArg(rules.ScopeIon, 0)}, {"NIL-FIELD", rules.NilField(rules.ScopeIon, 8)},
+			only(rOrdPopGuard, 2, funcHas("Reader", "bitstream", "tokenizer")),
 		},
 	},
 	"C07": {
-		Title:      "Malformed input ends in an error, and the error is permanent",
-		Decided:    "ERR-ABSORB-R, ERR-STICKY-R",
-		NotDecided: "that each grammar violation in the catalogue is detected",
-		Technique:  "SSA must-dataflow of branch facts, path search to exits, effect summaries",
-		DesignRef:  "DESIGN.md §3.1, §4 C07",
+		Decided:    "The Reader error state is absorbing and every effect of a Reader method happens after 'no error yet' was established (ERR-ABSORB-R); an error obtained from the input layer is made sticky before it is returned (ERR-STICKY-R); end of input inside an open binary container is never a nil-error return (ORD-EOFDEPTH); the text reader ends a sequence in the value position only when no annotations are pending (ORD-DANGLE); in the reader files no error is discarded (ERR-DROP) and no path from a non-nil error test reaches an exit without consuming the error or returning a definitely non-nil one (ERR-SWAP).",
+		Necessary:  "A Next that continues after an error, an input-layer error that never reaches Err(), a truncated container read as complete (F14, fixed), 'a::' accepted (F15, fixed) or a dropped tokenizer/bitstream error each let malformed input finish with Err()==nil or let Next resume.",
+		NotDecided: "that each grammar violation in the property's catalogue is detected by some check in the tokenizer or bitstream",
+		Technique:  ssaTech,
+		DesignRef:  "DESIGN.md §3.1, §3.5, §4 C07",
 		Rules: []Rule{
-			{"ERR-ABSORB-R", rules.ErrAbsorbR},
-			{"ERR-STICKY-R", rules.ErrStickyR},
-			{"REFUSE-PURE", rules.RefusePure},
-			{"ERR-DROP", rules.ErrDrop(rules.Scope{Name: "all"}, nil, 1)},
-			{"ERR-SWAP", rules.ErrSwap(rules.Scope{Name: "all"}, nil, 1)},
+			rAbsorbR, rStickyR, rOrdEOFDepth, rOrdDangle,
+			{"ERR-DROP", rules.ErrDrop(rules.ScopeReader, nil, 150)}, {"ERR-SWAP", rules.ErrSwap(rules.ScopeReader, rules.SwapSuppReader, 150)},
 		},
 	},
+	"C08": {
+		Decided:    "Every Reader method exit that refuses a call (returns a fresh *UsageError) is free of side effects on the reader (REFUSE-PURE); every token the tokenizer hands out as an unfinished value has a skip arm (TAB-TOKEN, skip arms).",
+		Necessary:  "A refused StepIn/StepOut/accessor that changes cursor state, or a value kind that cannot be skipped, makes later results depend on the navigation.",
+		NotDecided: "agreement of skip and read on where an arbitrary value ends (finding F17: lob skipping, TAB-LOBSKIP and SIB-READER not built)",
+		Technique:  ssaTech + "; " + tabTech,
+		DesignRef:  "DESIGN.md §3.1, §3.4, §4 C08",
+		Rules:      []Rule{rRefuse, only(rToken, 13, whatHas("skip arm"))},
+	},
+	"C09": {
+		Decided:    "Every insertion into a symbol text index happens only when the text is not present yet, imports before locals (ORD-FIRSTWINS); shared tables, local tables and the catalog are written only while being constructed, the builder is writer-private (OWN-IMMUT); NewSymbolTokenBySID looks an ID up only after 0 <= sid <= MaxID() was established (ORD-SIDBOUND).",
+		Necessary:  "An index insert that overwrites gives the highest instead of the lowest ID for a text; a table written after construction renumbers symbols already handed out; an unchecked ID above MaxID is not rejected.",
+		NotDecided: "the offset arithmetic across imports (processImports, findByIDInImports, Adjust) — numeric",
+		Technique:  "SSA dominance facts + store/alias roots with call-graph effect summaries",
+		DesignRef:  "DESIGN.md §3.5, §3.6, §4 C09",
+		Rules:      []Rule{rOrdFirstWins, rOwnImmut, rOrdSidBound},
+	},
+	"C10": {
+		Decided:    "Every successful path of binaryReader.readBVM resets the context to the system table (ORD-BVMRESET); once a top-level struct is recognised as $ion_symbol_table every exit reports 'not a user value' or an error (ORD-LSTHIDE); the symbol table reader dereferences accessor results only under the non-null precondition, so typed nulls in imports/name/version/max_id/symbols do not crash it (NIL-ACC scoped to readlocalsymboltable.go).",
+		Necessary:  "A version marker that keeps the old table, a table struct surfacing as a user value, or a panic on a typed null in a table slot (F8, fixed) each break resolution against the table in force.",
+		NotDecided: "append/replace semantics, catalog fallback order, max_id trimming/padding",
+		Technique:  "SSA must-pass-through and nil-fact dataflow",
+		DesignRef:  "DESIGN.md §3.2, §3.5, §4 C10",
+		Rules:      []Rule{rOrdBVMReset, rOrdLstHide, {"NIL-ACC", rules.NilAcc(rules.ScopeLST, 4)}},
+	},
+	"C11": {
+		Decided:    "The field names and the annotation the symbol table writer emits are exactly those the symbol table reader dispatches on, max_id included (TAB-LSTFIELDS); the fixed/imported table is written before the first value (ORD-LSTFIRST); the builder consults imports and existing entries before defining a local symbol (ORD-FIRSTWINS).",
+		Necessary:  "An import declaration the reader does not understand leaves every imported ID unresolvable; a table after the first value or a local redefinition of imported text emits IDs the stream does not (minimally) define.",
+		NotDecided: "ID arithmetic; that unknown text under a fixed table is an error (OWN-FIXEDLST not built)",
+		Technique:  tabTech + "; SSA dominance for ORD",
+		DesignRef:  "DESIGN.md §3.4, §3.5, §4 C11",
+		Rules:      []Rule{rLstFields, rOrdLstFirst, rOrdFirstWins},
+	},
 	"C12": {
-		Title:      "Any Writer call sequence ends in a correct stream or an error",
-		Decided:    "For all 24 error-returning Writer methods on each writer implementation: the sticky error is tested before any effect on the writer (ERR-GUARD-W) and every returned error is the sticky error (ERR-STICKY-W).",
-		NotDecided: "validity of the emitted stream (see C04), nil pointer arguments",
-		Technique:  "SSA must-dataflow of branch facts + effect summaries over the VTA call graph",
-		DesignRef:  "DESIGN.md §3.1, §4 C12",
+		Decided:    "For all 24 error-returning Writer methods on each writer implementation: the sticky error is tested before any effect on the writer (ERR-GUARD-W) and every returned error is the sticky error (ERR-STICKY-W); every value opened is closed on each success path (ORD-VALUE); Finish re-arms the binary writer before every success exit (ORD-REARM); every panicking pop on the writer-side stacks is dominated by a non-emptiness fact (ORD-POPGUARD, writer obligations); nothing reachable from the output API consults a time-, random- or schedule-dependent source and every map range has an order-insensitive body (OWN-NONDET).",
+		Necessary:  "A method that works after an earlier error or returns an error it does not remember lets a later Finish return nil (F1–F3, fixed); an unclosed value or a Finish that is not re-armed emits an invalid stream on a nil Finish (F4, fixed); an unguarded pop panics on an illegal call sequence; a nondeterminism source makes the same calls yield different bytes.",
+		NotDecided: "validity of the emitted stream beyond pairing (see C04), nil pointer arguments, WriteNullType with an out-of-range Type (finding F23, TAB-INDEX not built)",
+		Technique:  ssaTech,
+		DesignRef:  "DESIGN.md §3.1, §3.5, §3.6, §4 C12",
 		Rules: []Rule{
-			{"ERR-GUARD-W", rules.ErrGuardW},
-			{"ERR-STICKY-W", rules.ErrStickyW},
+			rGuardW, rStickyW, rOrdValue, rOrdRearm, only(rOrdPopGuard, 2, funcHas("Writer", "writer")), rOwnNondet,
 		},
+	},
+	"C13": {NAReason: "Every clause identified for this property is numeric (NUM-NARROW: no lossy integer conversion on the value path; NUM-BIG; NUM-F32; NUM-EXP32); the NUM engine was not built in this revision and no other rule decides a necessary condition of exact encoding/decoding. Exactness of the VarUInt/VarInt/Int codecs is arithmetic over runtime values. Findings F20 and F25 of DESIGN §6 remain open; F7 and F19 were repaired."},
+	"C14": {NAReason: "Exact rational results of Add/Sub/Mul/Shift/Truncate and the text round trip of decimals are arithmetic over unbounded runtime values; the only structural clauses identified (NUM-EXP32, NUM-NOFLOAT) belong to the NUM engine, which was not built. No static rule in reach bounds these quantities."},
+	"C15": {NAReason: "Calendar validation (TAB-DATEVAL) and fraction rounding (NUM-BIG/NUM-NARROW) rules were not built; formatting and parsing of timestamps are behaviour of staged parsers over runtime strings. Findings F12, F18 and F19 of DESIGN §6 were repaired by fix: commits but no check of this revision would detect their return."},
+	"C16": {
+		Decided:    "Only the determinism clause: MarshalText asks for sorted map keys and with that option encodeMap sorts the keys before emitting any field (ORD-SORTMAP); nothing reachable from Marshal*/Encoder/Writer methods consults a time-, random- or schedule-dependent source, and every map range has an order-insensitive body (OWN-NONDET).",
+		Necessary:  "Go's map iteration order is random, so an unsorted map encode or any other nondeterminism source makes MarshalText output differ between runs for the same value.",
+		NotDecided: "value equality after the round trip; kind/opaque-type dispatch agreement between encoder and decoder (TAB-OPAQUE, TAB-KIND not built; finding F21 was repaired)",
+		Technique:  "SSA dominance + call-graph reachability from the output API",
+		DesignRef:  "DESIGN.md §3.5, §3.6, §4 C16",
+		Rules:      []Rule{rOrdSortMap, rOwnNondet},
+	},
+	"C17": {
+		Decided:    "In unmarshal.go: token text and the other nil-if-unknown pointer fields are tested before use (NIL-FIELD); accessor results are dereferenced only under the non-null precondition (NIL-ACC, NIL-ARG); Decoder.Decode/DecodeTo return the reader's error or ErrNoInput, never nil, when Next() reports no value (ORD-NOINPUT).",
+		Necessary:  "A symbol without text ($0) or a typed null reaching an unguarded dereference panics instead of returning an error (F9, fixed); a Decoder that returns nil at the end of the stream never reports ErrNoInput.",
+		NotDecided: "the value × target conversion table, overflow tests before reflective sets (NUM-REFLECT, TAB-REFLECTSET not built; finding F10 was repaired)",
+		Technique:  "SSA must-dataflow of nil facts; path search to exits",
+		DesignRef:  "DESIGN.md §3.2, §3.5, §4 C17",
+		Rules: []Rule{
+			{"NIL-FIELD", rules.NilField(rules.ScopeUnmarshal, 2)}, {"NIL-ACC", rules.NilAcc(rules.ScopeUnmarshal, 10)}, {"NIL-ARG", rules.NilArg(rules.ScopeUnmarshal, 0)}, rOrdNoInput,
+		},
+	},
+	"C18": {
+		Decided:    "There is no shared mutable state: shared tables, local tables and the catalog are written only while being constructed (OWN-IMMUT); package-level variables and everything reachable from them are written only during package initialisation (OWN-GLOBAL); no method of a shared type hands out an alias of its internal slice or map (OWN-ESCAPE); nothing on the output path consults a schedule- or time-dependent source (OWN-NONDET).",
+		Necessary:  "With nothing written after construction every access to the shared objects is a read, and concurrent reads do not race (Go memory model); any write found by these rules is a write to an object two goroutines can hold.",
+		NotDecided: "thread-safety of reflect, math/big, fmt, strconv internals (assumed); user-supplied io.Reader/io.Writer/Marshaler implementations",
+		Technique:  "SSA store/alias roots + call-graph effect summaries",
+		DesignRef:  "DESIGN.md §3.6, §4 C18",
+		Rules:      []Rule{rOwnImmut, rOwnGlobal, rOwnEscape, rOwnNondet},
+	},
+	"C19": {
+		Decided:    "In the reader and writer files of package ion no error of a module function, ion interface method or I/O primitive is discarded (ERR-DROP) and no path from a non-nil error test reaches an exit with the error neither consumed nor replaced by a definitely non-nil error (ERR-SWAP); a failed write is sticky in every Writer method (ERR-STICKY-W); a failed read is made sticky before a Reader method returns it (ERR-STICKY-R).",
+		Necessary:  "bufio forgets an error once it has returned it, so an I/O error that is dropped, swapped for nil or returned without being stored looks like a clean end of data (F24, F26, fixed) or lets a later Finish return nil (F2, F3, fixed).",
+		NotDecided: "equality of results across chunkings (follows from bufio's contract, trusted), the prefix property of accepted bytes, that only complete-or-error input primitives are used (OWN-INPUT not built)",
+		Technique:  ssaTech,
+		DesignRef:  "DESIGN.md §3.1, §4 C19",
+		Rules: []Rule{
+			{"ERR-DROP", rules.ErrDrop(rules.ScopeIO, nil, 300)}, {"ERR-SWAP", rules.ErrSwap(rules.ScopeIO, rules.SwapSuppReader, 200)}, rStickyW, rStickyR,
+		},
+	},
+	"C20": {
+		Decided:    "In cmd/ion-go: a possibly-nil accessor result (typed null) is dereferenced only where known non-nil and is not passed to a callee that dereferences it unguarded (NIL-ACC, NIL-ARG scoped to the command).",
+		Necessary:  "The copy loop reads every scalar through the nil-returning accessors; an unguarded dereference is a panic on null.int and friends (part of F22, fixed).",
+		NotDecided: "output equivalence, exhaustiveness of the copy switch (TAB-COPYLOOP not built), event stream well-formedness, the panic(err) calls in stringify/symbolify/clobify",
+		Technique:  "SSA must-dataflow of nil facts with inferred callee preconditions",
+		DesignRef:  "DESIGN.md §3.2, §4 C20",
+		Rules:      []Rule{{"NIL-ACC", rules.NilAcc(rules.ScopeCmd, 1)}, {"NIL-ARG", rules.NilArg(rules.ScopeCmd, 1)}},
 	},
 }
